@@ -30,9 +30,10 @@ type Op struct {
 }
 
 const (
-	nAccts  = 2
+	nAccts  = 3 // a1, a2 pre-funded; a3 does not exist initially
+	nFunded = 2
 	nVals   = 2
-	balBase = 1000
+	funding = 1000
 )
 
 type world struct {
@@ -60,8 +61,8 @@ func newWorld() *world {
 	}
 	st, _ := fixture.NewMemState()
 	// a committed, non-empty starting point: funded accounts (so that nothing is "empty")
-	for _, a := range w.aAddrs {
-		st.AddBalance(a, big.NewInt(balBase))
+	for _, a := range w.aAddrs[:nFunded] {
+		st.AddBalance(a, big.NewInt(funding))
 	}
 	r1, r2, r3, err := st.Commit(true)
 	if err != nil {
@@ -91,10 +92,18 @@ func (w *world) apply(op *Op) (res map[string]interface{}) {
 		st.AddBalance(w.accts[op.A].Addr, big.NewInt(int64(op.D)))
 	case "SubBalance":
 		st.SubBalance(w.accts[op.A].Addr, big.NewInt(int64(op.D)))
+	case "Suicide":
+		st.Suicide(w.accts[op.A].Addr)
+	case "CreateAccount":
+		st.CreateAccount(w.accts[op.A].Addr)
 	case "SetNonce":
 		st.SetNonce(w.accts[op.A].Addr, uint64(op.V))
 	case "SetCode":
-		st.SetCode(w.accts[op.A].Addr, []byte{byte(op.V)})
+		code := []byte{byte(op.V)}
+		if op.V == 0 {
+			code = []byte{} // the model's 0 is "no code" (empty code hash)
+		}
+		st.SetCode(w.accts[op.A].Addr, code)
 	case "SetState":
 		slot := fixture.Slot1
 		if op.S == "s2" {
@@ -171,7 +180,7 @@ func (w *world) apply(op *Op) (res map[string]interface{}) {
 }
 
 func (w *world) proj() *fixture.StateProj {
-	return fixture.ProjectState(w.st, w.names, w.aAddrs, w.vAddrs, balBase)
+	return fixture.ProjectState(w.st, w.names, w.aAddrs, w.vAddrs, 0)
 }
 
 // abstract maps the projection onto the vocabulary of spec/Journal.tla (amounts in stake units).
@@ -180,6 +189,7 @@ func (w *world) abstract(p *fixture.StateProj) map[string]interface{} {
 	m := map[string]interface{}{}
 	var bal, nonce, s1, s2, code, dbal []int64
 	var dto [][]int
+	var ex, sui []bool
 	for i := 1; i <= nAccts; i++ {
 		a := p.Accts[fmt.Sprintf("a%d", i)]
 		c := int64(0)
@@ -193,10 +203,11 @@ func (w *world) abstract(p *fixture.StateProj) map[string]interface{} {
 			to = append(to, vi)
 		}
 		dto = append(dto, to)
+		ex, sui = append(ex, a.Exists), append(sui, a.Sui)
 		bal, nonce, s1, s2, code, dbal = append(bal, a.Bal), append(nonce, int64(a.Nonce)), append(s1, a.S1), append(s2, a.S2), append(code, c), append(dbal, a.Dbal/u)
 	}
 	m["bal"], m["nonce"], m["s1"], m["s2"], m["code"], m["dbal"] = bal, nonce, s1, s2, code, dbal
-	m["dto"] = dto
+	m["dto"], m["ex"], m["sui"] = dto, ex, sui
 	var vals [][]interface{}
 	for i := 1; i <= nVals; i++ {
 		v := p.Vals[fmt.Sprintf("v%d", i)]
@@ -267,10 +278,14 @@ func run(env *drive.Env) error {
 				// "resulting roots": a fresh replay up to here must give the roots of a fresh replay up to the snapshot
 				ra, ea := rootsAfter(beh, i+1)
 				rs, es := rootsAfter(beh, snapAt[op.Id]+1)
-				ev["rootsAfter"], ev["rootsAtSnap"] = ra, rs
-				if ea != "" || es != "" {
-					ev["rootsErr"] = ea + "|" + es
+				// a panic while computing roots shows up as a root triple that cannot match
+				if ea != "" {
+					ra = []string{"panic-after: " + ea, "", ""}
 				}
+				if es != "" {
+					rs = []string{"panic-at-snapshot: " + es, "", ""}
+				}
+				ev["rootsAfter"], ev["rootsAtSnap"] = ra, rs
 			}
 			env.Emit(ev)
 			if res["panic"] != nil {
